@@ -208,4 +208,11 @@ def obligations(tier):
     for o in extra:
         o.name = o.name.replace("C11/", "C05/").replace("equals_pointwise_over_grid", "ensures.grid")
         obs.append(o)
+    # per-sample parameter rows reach the initial-condition / observation terms (row i with row i), alone and together
+    # with observed parameters: the C12 contract of the three evaluate methods, reported under C05
+    from contracts import c12
+    for kind in ("ODE", "statio", "nonstatio"):
+        for o in (c12.batched(kind, ("a",), 2), c12.observed_and_batched(kind, 2)):
+            o.name = o.name.replace("C12/", "C05/")
+            obs.append(o)
     return obs
